@@ -502,7 +502,7 @@ def c05(tier, seed):
             if v["verdict"] == "accept":
                 wstats["completed_episodes"] += 1
                 continue
-            if v["clause"] in ("StepSeqGapFree", "MsgSeqGapFree"):   # an episode that does not start from sequence number 0
+            if v["clause"] in ("StepSeqGapFree", "MsgSeqGapFree", "EpisodeClockStartsAtZero"):   # an episode that does not start from sequence number 0 / time 0
                 rep.violation(dict(kind="wall_clock_isolation", clause=v["clause"]), dict(kind="wall_lifecycle", job={k: job[k] for k in job if k != "runs"}, run=dict(history=run["history"], sched=run["sched"]), verdict=v),
                               text=f"{t['id']} (wall clock) history={run['history']}: {v['detail'][:400]}")
             else:
